@@ -52,6 +52,14 @@ def cfg_inputs(cfg):
         recs = {"SUPER_1": rec("r1", [60]), "SUPER_2": rec("r2", [50, "N10", 30]), "SUPER_2_unloc_1": rec("r3", [20]), "scaffold_4": rec("r4", [15])}
         agp = ["# HiC MAP RESOLUTION: 1.000000 bp/texel", "Scaffold_1\t1\t60\t1\tW\tSUPER_1\t1\t60\t+", "Scaffold_2\t1\t90\t1\tW\tSUPER_2\t1\t90\t-",
                "Scaffold_3\t1\t20\t1\tW\tSUPER_2_unloc_1\t1\t20\t+", "Scaffold_4\t1\t15\t1\tW\tscaffold_4\t1\t15\t+"]
+    elif cfg == "threehap":
+        # three haplotypes of which one is curated (Primary tag): the other two are merged into one all_haplotigs file
+        recs = {"HAP1_SCAFFOLD_1": rec("t1", [60]), "HAP2_SCAFFOLD_2": rec("t2", [40, "N10", 15]), "HAP3_SCAFFOLD_3": rec("t3", [50]),
+                "HAP2_SCAFFOLD_4": rec("t4", [18]), "HAP3_SCAFFOLD_5": rec("t5", [22]), "HAP1_SCAFFOLD_6": rec("t6", [12])}
+        agp = ["# HiC MAP RESOLUTION: 1.000000 bp/texel",
+               "Scaffold_1\t1\t60\t1\tW\tHAP1_SCAFFOLD_1\t1\t60\t+\tPainted\tPrimary", "Scaffold_2\t1\t65\t1\tW\tHAP2_SCAFFOLD_2\t1\t65\t+\tPainted",
+               "Scaffold_3\t1\t50\t1\tW\tHAP3_SCAFFOLD_3\t1\t50\t-\tPainted", "Scaffold_4\t1\t18\t1\tW\tHAP2_SCAFFOLD_4\t1\t18\t+",
+               "Scaffold_5\t1\t22\t1\tW\tHAP3_SCAFFOLD_5\t1\t22\t+", "Scaffold_6\t1\t12\t1\tW\tHAP1_SCAFFOLD_6\t1\t12\t+\tHaplotig"]
     else:  # twohap
         recs = {"HAP1_SCAFFOLD_1": rec("h1", [60]), "HAP2_SCAFFOLD_2": rec("h2", [55]), "HAP1_SCAFFOLD_3": rec("h3", [20]), "HAP2_SCAFFOLD_4": rec("h4", [18])}
         agp = ["# HiC MAP RESOLUTION: 1.000000 bp/texel",
